@@ -285,6 +285,7 @@ func GenOutcomes(res *CmdResult, dirOf map[string]string) map[string]*PkgOutcome
 		pds = append(pds, pd{p, d})
 	}
 	sort.Slice(pds, func(i, j int) bool { return len(pds[i].dir) > len(pds[j].dir) })
+	var pending []Diag
 	for _, d := range ParseDiags(res.Stderr) {
 		if m := wroteRe.FindStringSubmatch(d.Text); m != nil {
 			get(m[1]).Wrote = true
@@ -292,6 +293,10 @@ func GenOutcomes(res *CmdResult, dirOf map[string]string) map[string]*PkgOutcome
 		}
 		if m := failedRe.FindStringSubmatch(d.Text); m != nil {
 			get(m[1]).Failed = true
+			// wire prints a package's errors, then this line: the unpositioned ones since the
+			// previous package line belong to this package
+			get(m[1]).Diags = append(get(m[1]).Diags, pending...)
+			pending = nil
 			continue
 		}
 		if d.File != "" {
@@ -303,8 +308,12 @@ func GenOutcomes(res *CmdResult, dirOf map[string]string) map[string]*PkgOutcome
 			}
 			continue
 		}
-		// unpositioned diagnostics: keep under ""
-		get("").Diags = append(get("").Diags, d)
+		// unpositioned diagnostics: attributed at the package's "generate failed" line
+		pending = append(pending, d)
+	}
+	// whatever no package line claimed stays under ""
+	if len(pending) > 0 {
+		get("").Diags = append(get("").Diags, pending...)
 	}
 	return out
 }
